@@ -1,3 +1,86 @@
+(** C14 — list/array library agrees with sequence and finite-map model; lists immutable.
+    Statements only; proofs in proofs/ListProofs.v.  List values are immutable by construction in
+    the model (an operator returns a new value, nothing in the state refers into a list); that the
+    implementation never mutates a reachable list is decided by the differential check (second
+    reference held to every argument).  The library functions defined in std.wal by recursion
+    (reverse, filter, sort, partition) are compared with Python's sequence operations by the check;
+    append/sum/partition's expansions are proved in C15. *)
 From WalModel Require Import Eval.
-Theorem tmp : True. Proof. exact I. Qed.
-Print Assumptions tmp.
+From WalModel.proofs Require Import ListProofs.
+Local Open Scope Z_scope.
+
+Section ListOps.
+  Variable ev : val -> M val.
+  Theorem first_spec : forall a w l st st', ev a st = Ok (VList w l) st' ->
+    op_first ev [a] st = match l with x :: _ => Ok x st' | [] => Er EEval st' end.
+  Proof. exact (first_is_head ev). Qed.
+  Theorem second_spec : forall a w l st st', ev a st = Ok (VList w l) st' ->
+    op_second ev [a] st = match l with _ :: x :: _ => Ok x st' | _ => Er EEval st' end.
+  Proof. exact (second_is_second ev). Qed.
+  Theorem last_spec : forall a w l st st', ev a st = Ok (VList w l) st' ->
+    op_last ev [a] st = match last_opt l with Some x => Ok x st' | None => Er EEval st' end.
+  Proof. exact (last_is_last ev). Qed.
+  Theorem rest_spec : forall a w l st st', ev a st = Ok (VList w l) st' ->
+    exists w', op_rest ev [a] st = Ok (VList w' (tl l)) st'.
+  Proof. exact (rest_is_tail ev). Qed.
+  Theorem length_spec : forall a w l st st', ev a st = Ok (VList w l) st' ->
+    op_length ev [a] st = Ok (VInt (Z.of_nat (List.length l))) st'.
+  Proof. exact (length_is_length ev). Qed.
+  Theorem zip_spec : forall a b wa la wb lb st st',
+    eval_args ev [a; b] st = Ok [VList wa la; VList wb lb] st' ->
+    op_zip ev [a; b] st = Ok (PL (map (fun p => PL [fst p; snd p]) (combine la lb))) st'.
+  Proof. exact (zip_is_combine ev). Qed.
+  Theorem list_spec : forall args vs st st', eval_args ev args st = Ok vs st' -> op_list ev args st = Ok (WL vs) st'.
+  Proof. exact (list_is_list ev). Qed.
+  Theorem add_on_lists : forall args vs st st',
+    eval_args ev args st = Ok vs st' -> existsb is_list_val vs = true ->
+    op_add ev args st = Ok (PL (flat_map (fun v => match v with VList _ l => l | _ => [v] end) vs)) st'.
+  Proof. exact (add_concatenates ev). Qed.
+  Theorem slice_spec : forall a u lo w l i j st st',
+    eval_args ev [a; u; lo] st = Ok [VList w l; VInt i; VInt j] st' ->
+    op_slice ev [a; u; lo] st = Ok (VList w (py_slice_list l i j)) st'.
+  Proof. exact (list_slice_is_firstn_skipn ev). Qed.
+  Theorem geta_present_or_error : forall a k r kv key st st1 st2 d,
+    ev a st = Ok (VArr r) st1 -> ev k st1 = Ok kv st2 -> array_key kv st2 = Ok key st2 ->
+    nth_error (st_arrays st2) r = Some d ->
+    op_geta ev [a; k] st = match alookup key d with Some v => Ok v st2 | None => Er EEval st2 end.
+  Proof. exact (geta_spec ev). Qed.
+End ListOps.
+Print Assumptions first_spec. Print Assumptions second_spec. Print Assumptions last_spec. Print Assumptions rest_spec.
+Print Assumptions length_spec. Print Assumptions zip_spec. Print Assumptions list_spec. Print Assumptions add_on_lists.
+Print Assumptions slice_spec. Print Assumptions geta_present_or_error.
+
+Theorem slice_inside_bounds : forall (A : Type) (l : list A) i j, 0 <= i -> i <= j -> j <= zlen l ->
+  py_slice_list l i j = firstn (Z.to_nat (j - i)) (skipn (Z.to_nat i) l).
+Proof. intros A. exact (@py_slice_inside A). Qed.
+Print Assumptions slice_inside_bounds.
+
+Theorem range_spec : forall a b, a <= b -> py_range a b 1 = zrange_nat a (Z.to_nat (b - a)).
+Proof. exact range_is_interval. Qed.
+Print Assumptions range_spec.
+
+(** arrays: keys compared by their textual form *)
+Theorem one_key_for_1 : exists k, array_key (VInt 1) = ret k /\ array_key (VStr "1") = ret k /\ array_key (VSym "1" None) = ret k.
+Proof. exact key_text_coincides. Qed.
+Print Assumptions one_key_for_1.
+
+(** after any sequence of seta/dela the array is a finite map (one entry per key) ... *)
+Theorem array_finite_map : forall ops d, NoDup (map fst d) -> NoDup (map fst (fold_left apply_aop ops d)).
+Proof. exact array_is_finite_map. Qed.
+Print Assumptions array_finite_map.
+
+(** ... reflecting exactly the surviving entries ... *)
+Theorem array_map_laws : forall (d : list (string * val)) k k' v,
+  alookup k (aset k v d) = Some v /\
+  (String.eqb k' k = false -> alookup k' (aset k v d) = alookup k' d) /\
+  (NoDup (map fst d) -> alookup k (adel k d) = None) /\
+  (String.eqb k' k = false -> alookup k' (adel k d) = alookup k' d).
+Proof. exact array_laws. Qed.
+Print Assumptions array_map_laws.
+
+(** ... in insertion order *)
+Theorem array_insertion_order : forall (d : list (string * val)) k v,
+  (amem k d = true -> map fst (aset k v d) = map fst d) /\
+  (amem k d = false -> map fst (aset k v d) = map fst d +++ [k]).
+Proof. exact array_order. Qed.
+Print Assumptions array_insertion_order.
